@@ -69,6 +69,27 @@ def run(case):
             return violated("%s.%s raised %r" % (desc, what, o), tags)
         if not (isinstance(o.value, np.ndarray) and same_array(o.value, v, dtype=True)):
             return violated("%s.%s gives %s %s" % (desc, what, getattr(o.value, "dtype", None), short(o.value, 160)), tags, got=o.value, expected=v)
+    # numpy's array conversion in its other spellings, and Python's own protocols (iteration, reversed, membership)
+    import warnings as _w
+    with _w.catch_warnings():
+        _w.simplefilter("ignore")
+        f64 = v.astype(np.float64) if dt.kind != "f" else v.astype(np.float32 if dt != np.float32 else np.float64)
+    convs = [("np.array(copy=True)", lambda: np.array(r, copy=True), v), ("np.array(dtype=%s)" % f64.dtype, lambda: np.array(r, dtype=f64.dtype), f64),
+             ("np.asarray(dtype=own)", lambda: np.asarray(r, dtype=dt), v)]
+    if L <= 40:
+        convs += [("list()", lambda: np.array(list(r), dtype=dt), v), ("reversed()", lambda: np.array(list(reversed(r)), dtype=dt), v[::-1])]
+    for what, f, want in convs:
+        o = attempt(f)
+        if not o.ok:
+            return violated("%s: %s raised %r" % (desc, what, o), tags + ["conversion"])
+        if not (isinstance(o.value, np.ndarray) and same_array(o.value, want, dtype=True)):
+            return violated("%s: %s gives %s %s, expected %s %s" % (desc, what, getattr(o.value, "dtype", None), short(o.value, 120), want.dtype, short(want, 120)), tags + ["conversion"], got=o.value, expected=want)
+    if dt.kind in "iub" and L <= 40:
+        present, absent = v[L // 2].item(), next(x for x in (7, 3, 0, 1, 101, -5, 2) if x not in v.tolist() or True)
+        for x_ in (present, absent):
+            o = attempt(lambda: bool(x_ in r))
+            if o.ok and o.value != (x_ in v.tolist()):
+                return violated("%s: (%r in rla) is %s, the array %s it" % (desc, x_, o.value, "contains" if x_ in v.tolist() else "does not contain"), tags + ["conversion"])
     # a decoded array belongs to the caller: overwriting it must not change what the encoded array decodes to
     CTX.tick("c14:decode-independent")
     for f in (lambda: r.to_array(), lambda: np.asarray(r)):
